@@ -71,6 +71,9 @@ func New() *Ctx {
 // Case writes one case line for the model driver and counts it. key identifies the case for the
 // distinct count; nontrivial says whether it counts as non-trivial by the harness's rule.
 func (c *Ctx) Case(line string, key string, nontrivial bool) {
+	if c.dist == nil {
+		c.dist = map[string]bool{}
+	}
 	c.Sum.Evaluations++
 	if nontrivial && !c.dist[key] {
 		c.dist[key] = true
@@ -86,6 +89,25 @@ func (c *Ctx) Case(line string, key string, nontrivial bool) {
 			s = s[:300] + "..."
 		}
 		c.Sum.Samples = append(c.Sum.Samples, s)
+	}
+}
+
+// Merge folds the counts, samples, notes and failures of another context (used by harnesses that
+// run scenarios concurrently with one private Ctx each) into c.
+func (c *Ctx) Merge(o *Ctx) {
+	c.Sum.Evaluations += o.Sum.Evaluations
+	c.Sum.DistinctNontrivial += o.Sum.DistinctNontrivial
+	for k, v := range o.Sum.Histogram {
+		c.Sum.Histogram[k] += v
+	}
+	for _, s := range o.Sum.Samples {
+		if len(c.Sum.Samples) < 8 {
+			c.Sum.Samples = append(c.Sum.Samples, s)
+		}
+	}
+	c.Sum.Notes = append(c.Sum.Notes, o.Sum.Notes...)
+	for _, f := range o.Sum.OracleFailures {
+		c.Fail(f.What, f.Case)
 	}
 }
 
